@@ -58,6 +58,7 @@ theorem refinement_step (s : State σ ρ) (op : Op σ) :
     · exact ⟨rfl, rfl⟩
   | lookup k => exact ⟨rfl, rfl⟩
   | systemData k => exact ⟨rfl, rfl⟩
+  | elapse n => exact ⟨rfl, rfl⟩
 
 /-- hence for every operation sequence: same abstract state, same outputs -/
 theorem refinement (s : State σ ρ) (ops : List (Op σ)) :
@@ -86,6 +87,28 @@ theorem same_version_not_reprepared (s : State σ ρ) (k : Key) (v : String) (sp
     (hver : e.version = v) :
     step prep s (.offer k (some v) spec sys c) = (s, .returned e.resource e.serial false) :=
   step_offer_hit prep s k (some v) spec sys c e ((validMeta_iff k _).mpr ⟨hk, v, rfl, hv⟩) hc hver
+
+/-- Time is not an input of the cache: while nothing but time passes — any number of waits of any
+    length — the state (entries, versions, call count) stays exactly what it was. -/
+theorem time_passing_changes_nothing (s : State σ ρ) (waits : List Nat) :
+    run prep s (waits.map .elapse) = s ∧
+    outs prep s (waits.map .elapse) = waits.map (fun _ => .unit) := by
+  induction waits with
+  | nil => exact ⟨rfl, rfl⟩
+  | cons n t ih =>
+    obtain ⟨i1, i2⟩ := ih
+    exact ⟨i1, by simp only [List.map_cons, outs, step]; rw [i2]⟩
+
+/-- "Prepare once per version" has no expiry: however long the entry has been cached — whatever its
+    result is, a failed one (a `Retry` with a delay long past included) — offering its name and
+    resourceVersion again returns that very object without calling the preparer. -/
+theorem same_version_not_reprepared_after_any_time (s : State σ ρ) (k : Key) (v : String) (spec : σ)
+    (sys : Option Nat) (c : Bool) (e : Entry σ ρ) (waits : List Nat) (hk : k.2 ≠ "") (hv : v ≠ "")
+    (hc : find? s.cache k = some e) (hver : e.version = v) :
+    step prep (run prep s (waits.map .elapse)) (.offer k (some v) spec sys c) =
+      (s, .returned e.resource e.serial false) := by
+  rw [(time_passing_changes_nothing prep s waits).1]
+  exact same_version_not_reprepared prep s k v spec sys c e hk hv hc hver
 
 /-- Offering a different resourceVersion (or a name not cached) always calls the preparer once, on the
     offered spec, and caches exactly what it returned — a failed preparation included — under the
@@ -357,6 +380,7 @@ theorem other_keys_untouched (s : State σ ρ) (op : Op σ) (k' : Key)
     · rfl
   | lookup k => rfl
   | systemData k => rfl
+  | elapse n => rfl
 
 /-! ## identity: serials of cached entries are distinct, so "same serial" is "same object" -/
 
@@ -451,6 +475,7 @@ theorem serials_identify (ops : List (Op σ)) :
                 · exact h2 k0 k0' e e' he he' hs
       | lookup k => exact ⟨h1, h2⟩
       | systemData k => exact ⟨h1, h2⟩
+      | elapse n => exact ⟨h1, h2⟩
   intro s
   exact inv ops init ⟨by intro k e h; simp [init, find?] at h, by intro k k' e e' h; simp [init, find?] at h⟩
 
@@ -479,5 +504,18 @@ example :
      (99, false), (99, false), (4, true), (99, false), (2, false), (99, false), (99, false)] := by decide
 
 example : Quiet (σ := Nat) (0, "a") "1" (.delete (0, "a") (some "2")) := .inr ⟨"2", rfl, by decide, by decide⟩
+
+example : Quiet (σ := Nat) (0, "a") "1" (.elapse 86400) := trivial
+
+/-- a failed preparation is served for its version after a day as after a second -/
+example :
+    (outs demoPrep init
+      [.offer (0, "a") (some "1") 11 none false, .elapse 1, .offer (0, "a") (some "1") 11 none false,
+       .elapse 86400, .offer (0, "a") (some "1") 13 none false, .lookup (0, "a")]).map
+      (fun o => match o with
+        | .returned _ n p => (n, p)
+        | .found (some (_, n)) => (n, false)
+        | _ => (99, false)) =
+    [(0, true), (99, false), (0, false), (99, false), (0, false), (0, false)] := by decide
 
 end Koreo.C15
